@@ -859,7 +859,9 @@ fn run_one<C: GenericConfig<D, F = F>>(s: &Scenario, selftest: bool, max_cor: us
             if !is_ext && st != "plain" && !knob_strats.is_empty() && knob_strats[ci % knob_strats.len()] != st {
                 continue;
             }
-            let must_ext = c.must && ext_every < 1000 && (c.kind.starts_with("table_") || c.desc["table"].as_u64() == Some(nt as u64 - 1));
+            // index-independent: the targeted cases and every padding-slot corruption (at most one per table) meet the external prover
+            let must_ext = ext_every < 1000
+                && (c.kind == "lu_pad" || (c.must && (c.kind.starts_with("table_") || c.desc["table"].as_u64() == Some(nt as u64 - 1))));
             if is_ext && !(c.kind == "none" || must_ext || ci % ext_every == 0 || ((bad_pairs > 0 || c.kind == "lu_pad") && ci % 2 == 0 && ext_every < 1000)) {
                 continue;
             }
